@@ -206,6 +206,11 @@ TRead ==
                   /\ IF Res = "chunk" THEN hd.pos < o.w /\ Line.ck = hd.k /\ Line.cv = hd.ver /\ Line.ci = hd.pos + 1
                      ELSE Res = "eof" /\ hd.pos = hd.size, TRUE)
 
+\* reading on after end-of-file keeps answering end-of-file
+TReadEofAgain ==
+    /\ Is("read") /\ Res = "eof" /\ handles[Line.h].open /\ handles[Line.h].eof
+    /\ Skip
+
 TClose ==
     /\ Is("close") /\ Res = "ok"
     /\ CloseH(Line.h)
@@ -294,7 +299,7 @@ TraceInit == Init /\ l = 1 /\ bad = [line |-> 0] /\ TLCSet(1, [l |-> 1, bad |-> 
 
 TraceNext ==
     \/ TReset \/ TStamp \/ TBlocked \/ TStore \/ TChunk \/ TCommit \/ TAbort \/ TCommitFailed \/ TAbortCommitted
-    \/ TGet \/ TGetNoSlot \/ TRead \/ TClose \/ TDelete \/ TUpdate \/ TExpire \/ TSetLimit
+    \/ TGet \/ TGetNoSlot \/ TRead \/ TReadEofAgain \/ TClose \/ TDelete \/ TUpdate \/ TExpire \/ TSetLimit
     \/ TScan \/ TJanRemove \/ TJanEnsure \/ TJanEvict \/ TNoop \/ TQuiesce \/ TDestroy
 
 TraceSpec == TraceInit /\ [][TraceNext]_tvars
